@@ -3,8 +3,11 @@
   `p->children` has `parent == p` — with what it rests on: children lists without duplicates, the
   privacy of a note being created, the children loops and the activation stack of
   `note_notify_child` walking the current forest (protected by the mutexes), the `disconnecting`
-  counters counting the threads inside a `disconnecting` section, and the local `parent` of such
-  a thread being the note's current parent or stale only because the note has been disconnected.
+  counters counting EXACTLY the threads that have incremented them and not yet decremented them
+  (top-level sections of `notify` / `nsync_note_free`, and — since the repair of F7 — the inner
+  activations of `note_notify_child`), and the local `parent` of a top-level section being the
+  note's CURRENT parent until that thread itself has seen the note disconnected (I1 of
+  /verif/fixes/F4F7/NOTES.md: "the last disconnector unlinks" — no stale `parent` any more).
 -/
 import NsyncVerif.Proofs.NoteRelF3
 
@@ -24,6 +27,68 @@ def inSecB (pc : PC) (n : NoteId) : Bool :=
   | some (m, _) => m == n
   | none => false
 
+/-- How many times the thread is counted in `n->disconnecting`. -/
+def cntOf (pc : PC) (n : NoteId) : Nat :=
+  (if inSecB pc n then 1 else 0) + pc.inner.count n
+
+/-- Positions of `notify (n)` inside the section and before `note_notify_child (n, parent)` has
+    returned. -/
+def NPos.linkedB : NPos → Bool
+  | .tryCall | .tryRet | .sUnlockCall | .sUnlockRet | .sLockPCall | .sLockPRet | .sLockNCall
+  | .sLockNRet => true
+  | _ => false
+
+/-- Positions of `nsync_note_free (n)` inside the section and before its own disconnection of
+    `n`. -/
+def FPos.linkedB : FPos → Bool
+  | .tryCall | .tryRet | .sUnlockCall | .sUnlockRet | .sLockPCall | .sLockPRet | .sLockNCall
+  | .sLockNRet | .lockChild | .lockChildRet | .unlockChild | .unlockChildRet | .waitCall
+  | .waitRet _ => true
+  | _ => false
+
+/-- The thread is inside a top-level section on `n` with a non-NULL local `parent`, and has not
+    yet executed the end of its own `note_notify_child (n, parent)` / its own disconnection of `n`
+    in `nsync_note_free`. -/
+def PC.linked : PC → Option (NoteId × NoteId)
+  | .nfy pos n (some p) _ => bif pos.linkedB then some (n, p) else none
+  | .chd _ _ top => top.par.map (fun p => (top.n, p))
+  | .fr pos n (some p) _ _ => bif pos.linkedB then some (n, p) else none
+  | _ => none
+
+theorem linked_nfy (pos : NPos) (n : NoteId) (par : Option NoteId) (k : NK) :
+    (PC.nfy pos n par k).linked = bif pos.linkedB then par.map (fun p => (n, p)) else none := by
+  cases par <;> cases pos <;> rfl
+
+theorem linked_fr (pos : FPos) (n : NoteId) (par : Option NoteId) (c : NoteId)
+    (nx : Option NoteId) :
+    (PC.fr pos n par c nx).linked = bif pos.linkedB then par.map (fun p => (n, p)) else none := by
+  cases par <;> cases pos <;> rfl
+
+theorem linked_chd (pos : CPos) (stk : List Frame) (top : Top) :
+    (PC.chd pos stk top).linked = top.par.map (fun p => (top.n, p)) := rfl
+
+theorem linked_sec {pc : PC} {n p : NoteId} (h : pc.linked = some (n, p)) :
+    pc.sec = some (n, some p) := by
+  cases pc with
+  | nfy pos m par k =>
+    cases par with
+    | none => simp [PC.linked] at h
+    | some q =>
+      cases pos <;> simp [PC.linked, NPos.linkedB] at h <;> obtain ⟨rfl, rfl⟩ := h <;> rfl
+  | chd pos stk top =>
+    cases hp : top.par with
+    | none => simp [PC.linked, hp] at h
+    | some q =>
+      simp only [PC.linked, hp, Option.map_some, Option.some.injEq, Prod.mk.injEq] at h
+      obtain ⟨rfl, rfl⟩ := h
+      simp [hp]
+  | fr pos m par c nx =>
+    cases par with
+    | none => simp [PC.linked] at h
+    | some q =>
+      cases pos <;> simp [PC.linked, FPos.linkedB] at h <;> obtain ⟨rfl, rfl⟩ := h <;> rfl
+  | _ => simp [PC.linked] at h
+
 structure InvForest (s : State) : Prop where
   /-- the converse of `InvT` -/
   c2p : ∀ p c, c ∈ (s.notes p).children → (s.notes c).parent = some p
@@ -39,52 +104,136 @@ structure InvForest (s : State) : Prop where
   /-- every activation of `note_notify_child` but the outermost works on a child of the note of
       the enclosing activation -/
   chain : ∀ t pos stk top, s.pc t = .chd pos stk top → ChainCur s (stk.map Frame.note)
-  /-- `n->disconnecting` is at least the number of users of `n` inside a section on `n` -/
-  disc : ∀ n, (s.users n).countP (fun t => inSecB (s.pc t) n) ≤ (s.notes n).disconnecting
+  /-- `n->disconnecting` is the number of increments not yet undone: one per top-level section
+      on `n`, one per inner activation of `note_notify_child` on `n` (`L` lists the threads that
+      are inside a call) -/
+  cnt : ∃ L : List Tid, L.Nodup ∧ (∀ t, s.pc t ≠ .idle → t ∈ L) ∧
+    ∀ n, (s.notes n).disconnecting = (L.map (fun t => cntOf (s.pc t) n)).sum
   /-- the local `parent` of a section on `n` is `n->parent`, unless `n` has been disconnected -/
   stale : ∀ t n par, (s.pc t).sec = some (n, par) →
     (s.notes n).parent = par ∨ (s.notes n).parent = none
+  /-- I1 ("the last disconnector unlinks"): … and `n` has not been disconnected as long as the
+      thread has not executed the end of its own `note_notify_child (n, parent)` / its own
+      disconnection in `nsync_note_free` -/
+  linked : ∀ t n p, (s.pc t).linked = some (n, p) → (s.notes n).parent = some p
 
 theorem InvForest.init : InvForest Note.init := by
-  refine ⟨?_, ?_, ?_, ?_, ?_, ?_, ?_, ?_⟩ <;> simp [Note.init, NoteRec.blank]
+  refine ⟨?_, ?_, ?_, ?_, ?_, ?_, ⟨[], ?_⟩, ?_, ?_⟩ <;>
+    simp [Note.init, NoteRec.blank, PC.linked]
 
 /-! ### Counting -/
 
-theorem countP_le_succ {l : List Tid} {p p' : Tid → Bool} {a : Tid} (hn : l.Nodup)
-    (h : ∀ t, t ≠ a → p' t = p t) : l.countP p' ≤ l.countP p + 1 := by
+theorem sum_map_congr {l : List Tid} {f f' : Tid → Nat} (h : ∀ t ∈ l, f' t = f t) :
+    (l.map f').sum = (l.map f).sum := by
   induction l with
-  | nil => simp
+  | nil => rfl
   | cons x xs ih =>
-    obtain ⟨hx, hxs⟩ := List.nodup_cons.mp hn
-    by_cases hxa : x = a
-    · subst hxa
-      have : xs.countP p' = xs.countP p :=
-        List.countP_congr (fun t ht => by rw [h t (fun e => hx (e ▸ ht))])
-      simp only [List.countP_cons, this]
-      split <;> split <;> omega
-    · have := ih hxs
-      simp only [List.countP_cons, h x hxa]
-      omega
+    simp only [List.map_cons, List.sum_cons]
+    rw [h x List.mem_cons_self, ih (fun t ht => h t (List.mem_cons_of_mem _ ht))]
 
-theorem countP_succ_le {l : List Tid} {p p' : Tid → Bool} {a : Tid} (hn : l.Nodup) (ha : a ∈ l)
-    (hp : p a = true) (hp' : p' a = false) (h : ∀ t, t ≠ a → p' t = p t) :
-    l.countP p' + 1 ≤ l.countP p := by
+/-- Changing the summand of one thread. -/
+theorem sum_map_update {l : List Tid} {f f' : Tid → Nat} {a : Tid} (hn : l.Nodup) (ha : a ∈ l)
+    (h : ∀ t, t ≠ a → f' t = f t) : (l.map f').sum + f a = (l.map f).sum + f' a := by
   induction l with
   | nil => cases ha
   | cons x xs ih =>
     obtain ⟨hx, hxs⟩ := List.nodup_cons.mp hn
+    simp only [List.map_cons, List.sum_cons]
     by_cases hxa : x = a
     · subst hxa
-      have : xs.countP p' = xs.countP p :=
-        List.countP_congr (fun t ht => by rw [h t (fun e => hx (e ▸ ht))])
-      simp [List.countP_cons, this, hp, hp']
+      have : (xs.map f').sum = (xs.map f).sum :=
+        sum_map_congr (fun t ht => h t (fun e => hx (e ▸ ht)))
+      omega
     · have hmem : a ∈ xs := by
         rcases List.mem_cons.mp ha with h1 | h1
         · exact absurd h1.symm hxa
         · exact h1
       have := ih hxs hmem
-      simp only [List.countP_cons, h x hxa]
+      rw [h x hxa]
       omega
+
+theorem le_sum_map {l : List Tid} {f : Tid → Nat} {a : Tid} (ha : a ∈ l) :
+    f a ≤ (l.map f).sum := by
+  induction l with
+  | nil => cases ha
+  | cons x xs ih =>
+    simp only [List.map_cons, List.sum_cons]
+    rcases List.mem_cons.mp ha with h | h
+    · subst h; omega
+    · have := ih h; omega
+
+theorem le_sum_map_two {l : List Tid} {f : Tid → Nat} {a b : Tid} (hn : l.Nodup) (ha : a ∈ l)
+    (hb : b ∈ l) (hab : a ≠ b) : f a + f b ≤ (l.map f).sum := by
+  induction l with
+  | nil => cases ha
+  | cons x xs ih =>
+    obtain ⟨hx, hxs⟩ := List.nodup_cons.mp hn
+    simp only [List.map_cons, List.sum_cons]
+    rcases List.mem_cons.mp ha with h | h
+    · subst h
+      rcases List.mem_cons.mp hb with h' | h'
+      · exact absurd h'.symm hab
+      · have := le_sum_map (f := f) h'; omega
+    · rcases List.mem_cons.mp hb with h' | h'
+      · subst h'
+        have := le_sum_map (f := f) h; omega
+      · have := ih hxs h h'; omega
+
+theorem exists_of_sum_map_pos {l : List Tid} {f : Tid → Nat} (h : (l.map f).sum ≠ 0) :
+    ∃ t ∈ l, f t ≠ 0 := by
+  induction l with
+  | nil => simp at h
+  | cons x xs ih =>
+    simp only [List.map_cons, List.sum_cons] at h
+    by_cases hx : f x = 0
+    · obtain ⟨t, ht, hft⟩ := ih (by omega)
+      exact ⟨t, List.mem_cons_of_mem _ ht, hft⟩
+    · exact ⟨x, List.mem_cons_self, hx⟩
+
+@[simp] theorem cntOf_idle (n : NoteId) : cntOf .idle n = 0 := rfl
+
+/-- A thread that is counted is inside a call. -/
+theorem not_idle_of_cntOf {pc : PC} {n : NoteId} (h : cntOf pc n ≠ 0) : pc ≠ .idle := by
+  intro e; subst e; exact h rfl
+
+/-- Every thread counted in `n->disconnecting` contributes to it. -/
+theorem InvForest.cnt_le {s : State} (hF : InvForest s) (t : Tid) (n : NoteId) :
+    cntOf (s.pc t) n ≤ (s.notes n).disconnecting := by
+  obtain ⟨L, _, hL, hsum⟩ := hF.cnt
+  by_cases h : cntOf (s.pc t) n = 0
+  · omega
+  · rw [hsum n]
+    exact le_sum_map (f := fun t => cntOf (s.pc t) n) (hL t (not_idle_of_cntOf h))
+
+/-- Two different counted threads. -/
+theorem InvForest.cnt_two {s : State} (hF : InvForest s) {t u : Tid} (htu : t ≠ u) (n : NoteId) :
+    cntOf (s.pc t) n + cntOf (s.pc u) n ≤ (s.notes n).disconnecting := by
+  obtain ⟨L, hnd, hL, hsum⟩ := hF.cnt
+  by_cases h1 : cntOf (s.pc t) n = 0
+  · have := hF.cnt_le u n; omega
+  · by_cases h2 : cntOf (s.pc u) n = 0
+    · have := hF.cnt_le t n; omega
+    · rw [hsum n]
+      exact le_sum_map_two (f := fun t => cntOf (s.pc t) n) hnd (hL t (not_idle_of_cntOf h1))
+        (hL u (not_idle_of_cntOf h2)) htu
+
+/-- A non-zero `n->disconnecting` has a thread behind it. -/
+theorem InvForest.cnt_pos {s : State} (hF : InvForest s) {n : NoteId}
+    (h : (s.notes n).disconnecting ≠ 0) : ∃ t, cntOf (s.pc t) n ≠ 0 := by
+  obtain ⟨L, _, _, hsum⟩ := hF.cnt
+  rw [hsum n] at h
+  obtain ⟨t, _, ht⟩ := exists_of_sum_map_pos h
+  exact ⟨t, ht⟩
+
+theorem cntOf_sec {pc : PC} {n : NoteId} {par : Option NoteId} (h : pc.sec = some (n, par)) :
+    1 ≤ cntOf pc n := by
+  unfold cntOf inSecB
+  rw [h]; simp
+
+theorem cntOf_inner {pc : PC} {n : NoteId} (h : n ∈ pc.inner) : 1 ≤ cntOf pc n := by
+  unfold cntOf
+  have := List.count_pos_iff.mpr h
+  omega
 
 /-! ### Who may shrink a children list -/
 
@@ -104,16 +253,18 @@ theorem held_chd_tail {pos : CPos} {stk : List Frame} {top : Top} {y : NoteId}
   | _ => simp only [PC.held, List.mem_append]; exact Or.inl h2
 
 theorem held_unlinks {pc : PC} {c p : NoteId} (h : pc.unlinks c p) : p ∈ pc.held := by
-  rcases h with ⟨kept, f, rest, top, rfl, _, hfp⟩ | ⟨kept, c', nx, rfl⟩
+  rcases h with ⟨pos, f, rest, top, rfl, hpos, _, hfp⟩ | ⟨kept, c', nx, rfl⟩
   · have : p ∈ rest.map Frame.note ++ top.par.toList := by
       cases rest with
       | nil => simp only [frameParent] at hfp; simp [hfp]
       | cons g gs =>
         simp only [frameParent, Option.some.injEq] at hfp
         simp [hfp]
-    cases kept
-    · simpa [PC.held] using this
+    rcases hpos with rfl | ⟨kept, rfl⟩
     · simp only [PC.held, List.map_cons, List.cons_append, List.mem_cons]; exact Or.inr this
+    · cases kept
+      · simpa [PC.held] using this
+      · simp only [PC.held, List.map_cons, List.cons_append, List.mem_cons]; exact Or.inr this
   · cases kept <;> simp [PC.held]
 
 /-- A note leaves a children list only by a step of a thread that holds the list owner's
@@ -171,7 +322,7 @@ theorem ChainCur.mono {s s' : State} {l : List NoteId}
 theorem InvForest.unlinks_parent {s : State} (hL : InvL s) (hF : InvForest s) {t : Tid} {c p : NoteId}
     (h : (s.pc t).unlinks c p) :
     (s.notes c).parent = some p ∨ (s.notes c).parent = none := by
-  rcases h with ⟨kept, f, rest, top, hpc, hfc, hfp⟩ | ⟨kept, c', nx, hpc⟩
+  rcases h with ⟨pos, f, rest, top, hpc, _, hfc, hfp⟩ | ⟨kept, c', nx, hpc⟩
   · cases rest with
     | nil =>
       simp only [frameParent] at hfp
@@ -419,35 +570,47 @@ theorem InvForest.step_chc {s s' : State} {e : Event} (hS : InvS s) (hL : InvL s
         rw [h]; cases pos <;> simp at hp <;> simp [PC.held])
       subst this; exact absurd ha' ha
 
-/-- A step of a thread inside `note_notify_child`, not leaving WAIT_FOR_NO_CHILDREN, leaves the
-    forest alone. -/
-theorem forest_same_of_chd {s s' : State} {e : Event} (hS : InvS s) (hL : InvL s)
-    (hs : step s e = .ok s') {a : Tid} (ha : e.actor = some a) {pos : CPos} {stk : List Frame}
-    {top : Top} (hpc : s.pc a = .chd pos stk top) (hp : ∀ k, pos ≠ .waitRet k) :
+/-- A step of a thread inside `note_notify_child` that does not end an activation (the activation
+    stack does not shrink) leaves the forest alone. -/
+theorem forest_same_of_chd {s s' : State} {e : Event}
+    (hs : step s e = .ok s') {a : Tid} (ha : e.actor = some a) {pos pos' : CPos}
+    {stk stk' : List Frame} {top top' : Top} (hpc : s.pc a = .chd pos stk top)
+    (hpc' : s'.pc a = .chd pos' stk' top') (hlen : stk.length ≤ stk'.length) :
     ForestSame s s' := by
-  rcases step_forest hS hL hs with hf | ⟨a', _, _, _, ha', hpc', _⟩ |
-    ⟨a', _, _, _, _, ha', hpc', _⟩ | ⟨a', _, _, _, ha', hpc', _⟩ | ⟨a', c0, p0, ha', hun, _⟩
-  · exact hf
-  · obtain rfl := Option.some.inj (ha'.symm.trans ha); rw [hpc] at hpc'; cases hpc'
-  · obtain rfl := Option.some.inj (ha'.symm.trans ha); rw [hpc] at hpc'; cases hpc'
-  · obtain rfl := Option.some.inj (ha'.symm.trans ha); rw [hpc] at hpc'; cases hpc'
-  · obtain rfl := Option.some.inj (ha'.symm.trans ha)
-    rcases hun with ⟨kept, f, rest, top', h1, _⟩ | ⟨kept, c', nx, h1⟩
-    · rw [hpc] at h1; cases h1; exact absurd rfl (hp kept)
-    · rw [hpc] at h1; cases h1
+  replace hpc := hpc.symm
+  cases e
+  all_goals step_cases hs
+  all_goals simp only [Event.actor, Option.some.injEq, reduceCtorEq] at ha
+  all_goals (try subst ha)
+  all_goals (try (rw [‹s.pc _ = _›] at hpc; cases hpc; done))
+  all_goals (try (intro j; exact ⟨rfl, rfl⟩))
+  all_goals (try (intro j; constructor <;> simp; done))
+  all_goals (repeat' split)
+  all_goals (try (intro j; constructor <;> simp; done))
+  -- the end of an activation: the stack shrinks
+  all_goals (
+    exfalso
+    rw [‹s.pc _ = _›] at hpc
+    cases hpc
+    simp only [childReturn_pc, upd_same, childReturnPc] at hpc'
+    split at hpc'
+    · cases hpc'; simp at hlen; omega
+    · split at hpc' <;> cases hpc')
 
 theorem InvForest.step_chain {s s' : State} {e : Event} (hS : InvS s) (hL : InvL s) (hK : LockInv s)
     (hF : InvForest s) (hs : step s e = .ok s') (t : Tid) (pos' : CPos) (stk' : List Frame)
     (top' : Top) (h : s'.pc t = .chd pos' stk' top') : ChainCur s' (stk'.map Frame.note) := by
   by_cases ha : e.actor = some t
-  · rcases step_stack hs t ha h with ⟨pos, stk, hpc, hmap, hp⟩ | ⟨c, stk, hpc, hmap⟩ |
+  · rcases step_stack hs t ha h with ⟨pos, stk, hpc, hmap⟩ | ⟨c, stk, hpc, hmap⟩ |
       ⟨pos, f, hpc⟩ | hmap
     · -- same stack
-      have hf := forest_same_of_chd hS hL hs ha hpc hp
+      have hf := forest_same_of_chd hs ha hpc h (by
+        have := congrArg List.length hmap; simp at this; omega)
       rw [hmap]
       exact ChainCur.mono (fun x y _ _ hx => by rw [(hf y).1]; exact hx) (hF.chain t _ _ _ hpc)
     · -- a child is pushed
-      have hf := forest_same_of_chd hS hL hs ha hpc (fun k hk => by cases hk)
+      have hf := forest_same_of_chd hs ha hpc h (by
+        have := congrArg List.length hmap; simp at this; omega)
       rw [hmap]
       have hch := hF.chain t _ _ _ hpc
       refine ChainCur.mono (fun x y _ _ hx => by rw [(hf y).1]; exact hx) ?_
@@ -471,7 +634,7 @@ theorem InvForest.step_chain {s s' : State} {e : Event} (hS : InvS s) (hL : InvL
         rw [(hf y).1]
         split
         · -- the note disconnected is the one of the activation that returns, strictly below `x`
-          rcases hun with ⟨kept, f0, rest0, top0, h1, hfc, _⟩ | ⟨kept, c', nx, h1⟩
+          rcases hun with ⟨pos0, f0, rest0, top0, h1, _, hfc, _⟩ | ⟨kept, c', nx, h1⟩
           · rw [hpc] at h1; cases h1
             have hlt := LClaim.above_head hL hc x (List.mem_append_left _ hxm)
             rw [hfc] at hlt
